@@ -45,7 +45,7 @@
 (* the stack is empty at the end, line events name lines of the function    *)
 (* on top.  The final state of every program publishes the program, its     *)
 (* expected events and the classified variants for the binding.             *)
-EXTENDS Integers, Sequences, FiniteSets, TLC, Json, TraceNest
+EXTENDS Integers, Sequences, FiniteSets, TLC, Json, IOUtils, TraceNest
 
 CONSTANTS MaxFn,       \* bound on the number of functions of a program (<= 7)
           MaxDepth,    \* bound on the depth of the call tree
@@ -159,7 +159,32 @@ BrkOK(s, inloop) ==  \* `break` only inside a loop
     [] s.t = "te"   -> BrkOK(s.b, inloop) /\ BrkOK(s.h, inloop)
     [] s.t = "tf"   -> BrkOK(s.b, inloop) /\ BrkOK(s.f, inloop)
 
+(* Outside the domain: a `return` that leaves a for-loop over a generator through a finally clause / *)
+(* with-exit INSIDE that loop, or that leaves two nested such loops.  When the dropped iterators are  *)
+(* finalised relative to those clauses and to each other is reference-counting detail of the         *)
+(* implementation (CPython: innermost first, after the clauses; Cython: at the return statement,      *)
+(* outermost first), not a matter of event emission; such programs are skipped.                       *)
+RECURSIVE Ambig(_, _, _)
+Ambig(s, infor, guarded) ==
+  CASE s.t \in {"ret", "retcall"} -> infor /\ guarded
+    [] s.t \in {"pass", "raise", "brk", "yield", "call", "nc", "gc"} -> FALSE
+    [] s.t = "for"  -> Ambig(s.b, TRUE, infor)
+    [] s.t = "lp"   -> Ambig(s.b, infor, guarded)
+    [] s.t = "with" -> Ambig(s.b, infor, guarded \/ infor)
+    [] s.t = "seq"  -> Ambig(s.a, infor, guarded) \/ Ambig(s.b, infor, guarded)
+    [] s.t = "te"   -> Ambig(s.b, infor, guarded) \/ Ambig(s.h, infor, guarded)
+    [] s.t = "tf"   -> Ambig(s.b, infor, guarded \/ infor) \/ Ambig(s.f, infor, guarded)
+
+RECURSIVE YieldInFinally(_)
+YieldInFinally(s) ==     \* a yield inside a finally clause is outside the domain (resumption with a pending return / exception)
+  CASE s.t \in {"pass", "ret", "raise", "brk", "yield", "call", "retcall", "nc", "gc"} -> FALSE
+    [] s.t \in {"for", "lp", "with"} -> YieldInFinally(s.b)
+    [] s.t = "seq"  -> YieldInFinally(s.a) \/ YieldInFinally(s.b)
+    [] s.t = "te"   -> YieldInFinally(s.b) \/ YieldInFinally(s.h)
+    [] s.t = "tf"   -> YieldInFinally(s.b) \/ HasYield(s.f)
+
 Valid(b, isgen) == /\ BrkOK(b, FALSE)
+                   /\ ~YieldInFinally(b)
                    /\ HasYield(b) = isgen
                    /\ ("d2" \in Uses(b) => "d1" \in Uses(b))
 
@@ -253,9 +278,10 @@ Exec(s, st, fr, ln) ==
     [] s.t = "seq"     -> LET r == Exec(s.a, st, fr, ln)
                           IN IF r.sig.t = "norm" THEN Exec(s.b, r.st, fr, ln + Size(s.a)) ELSE r
     [] s.t = "te"      -> LET r == Exec(s.b, Line(st, fr, ln, 0), fr, ln + 1)
-                          IN IF r.sig = Raise("VE")
-                             THEN Exec(s.h, Line(r.st, fr, ln + 1 + Size(s.b), 0), fr, ln + 2 + Size(s.b))
-                             ELSE r
+                              m == Line(r.st, fr, ln + 1 + Size(s.b), 0)      \* the except clause tests every exception
+                          IN IF r.sig.t # "raise" THEN r
+                             ELSE IF r.sig.e = "VE" THEN Exec(s.h, m, fr, ln + 2 + Size(s.b))
+                             ELSE Res(m, r.sig)
     [] s.t = "tf"      -> LET r == Exec(s.b, Line(st, fr, ln, 0), fr, ln + 1)
                               f == Exec(s.f, Line(r.st, fr, ln + 1 + Size(s.b), 0), fr, ln + 2 + Size(s.b))
                           IN IF f.sig.t = "norm" THEN Res(f.st, r.sig) ELSE f
@@ -301,11 +327,18 @@ VARIABLES phase,    \* "build" -> "walk" -> "done" | "skip" (outside the domain)
           bad       \* 0, or the index of the first event that did not meet its precondition
 vars == <<phase, fns, todo, evs, res, pos, stk, ska, susp, started, ended, bad>>
 
-NoRes == [out |-> "", ir |-> <<>>, ic |-> <<>>, ib |-> <<>>]
+NoRes == [out |-> "", ir |-> <<>>, ic |-> <<>>, ib |-> <<>>, cal |-> <<>>, sz |-> <<>>]
 
 Init == /\ phase = "build" /\ fns = <<>> /\ todo = <<[cls |-> "d", d |-> 1]>>
         /\ evs = <<>> /\ res = NoRes /\ pos = 0 /\ stk = <<>> /\ ska = <<>>
         /\ susp = {} /\ started = {} /\ ended = {} /\ bad = 0
+
+\* programs grown by the harness (seeded random growth with the same rules): checked by WellFormed, then run like the others
+Given == IF "PROGS" \in DOMAIN IOEnv THEN ndJsonDeserialize(IOEnv.PROGS) ELSE <<>>
+InitGiven == /\ \E i \in 1..Len(Given) : fns = Given[i]
+             /\ phase = "build" /\ todo = <<>>
+             /\ evs = <<>> /\ res = NoRes /\ pos = 0 /\ stk = <<>> /\ ska = <<>>
+             /\ susp = {} /\ started = {} /\ ended = {} /\ bad = 0
 
 Walk0 == UNCHANGED <<evs, res, pos, stk, ska, susp, started, ended, bad>>
 
@@ -342,18 +375,20 @@ RunProg ==
          vr  == Proj(Run(fns, {"retstmt"}).ev)
          vc  == Proj(Run(fns, {"closeun"}).ev)
          vb  == Proj(Run(fns, {"retstmt", "closeun"}).ev)
-     IN /\ phase' = IF ref.unsup THEN "skip" ELSE "walk"
+         amb == \E i \in 1..Len(fns) : Ambig(BodyOf(fns, i), FALSE, FALSE)
+     IN /\ phase' = IF ref.unsup \/ amb THEN "skip" ELSE "walk"
         /\ evs' = ref.ev
         /\ res' = [out |-> ref.out,
                    ir |-> IF vr = pr THEN <<>> ELSE vr,
                    ic |-> IF vc = pr THEN <<>> ELSE vc,
-                   ib |-> IF vb = pr THEN <<>> ELSE vb]
+                   ib |-> IF vb = pr THEN <<>> ELSE vb,
+                   cal |-> Callees(fns), sz |-> Sizes(fns)]
   /\ UNCHANGED <<fns, todo, pos, stk, ska, susp, started, ended, bad>>
 
 (* the walk: one event per step *)
 Cur == evs[pos + 1]
-Cal == Callees(fns)
-Szs == Sizes(fns)
+Cal == res.cal
+Szs == res.sz
 Step(ok, stk2, ska2, susp2, started2, ended2) ==
   /\ pos' = pos + 1
   /\ bad' = IF bad = 0 /\ ~ok THEN pos + 1 ELSE bad
@@ -378,8 +413,18 @@ DoUnwind == /\ Walking("unw")
             /\ Step(EndOK, Pop(stk), Pop(ska), susp, started, ended \cup {Cur.a})
 DoYield  == /\ Walking("yield")
             /\ Step(EndOK /\ fns[Cur.f].k = "gen", Pop(stk), Pop(ska), susp \cup {Cur.a}, started, ended)
+RECURSIVE LineRunEnd(_), FirstBadLine(_, _)
+LineRunEnd(i) == IF i < Len(evs) /\ evs[i + 1].k = "line" THEN LineRunEnd(i + 1) ELSE i
+LineEvOK(e) == LineOK(stk, e.f, e.l, Szs) /\ Top(ska) = e.a /\ e.l >= 1
+FirstBadLine(i, j) == IF i > j THEN 0 ELSE IF LineEvOK(evs[i]) THEN FirstBadLine(i + 1, j) ELSE i
+\* a run of consecutive line events is consumed in one step (they do not change the stack)
 DoLine   == /\ Walking("line")
-            /\ Step(LineOK(stk, Cur.f, Cur.l, Szs) /\ Top(ska) = Cur.a /\ Cur.l >= 1, stk, ska, susp, started, ended)
+            /\ LET j == LineRunEnd(pos + 1)
+                   b == FirstBadLine(pos + 1, j)
+               IN /\ pos' = j
+                  /\ bad' = IF bad = 0 THEN b ELSE bad
+                  /\ phase' = IF j = Len(evs) THEN "done" ELSE "walk"
+                  /\ UNCHANGED <<fns, todo, evs, res, stk, ska, susp, started, ended>>
 
 Next == AddRoot \/ AddDef \/ AddGen \/ RunProg \/ DoCall \/ DoResume \/ DoThrow \/ DoReturn \/ DoUnwind \/ DoYield \/ DoLine
 Spec == Init /\ [][Next]_vars
@@ -406,7 +451,21 @@ OneStartOneEnd == phase = "done" =>
 \* the root's outcome and its end event agree
 Outcome == phase \in {"walk", "done"} =>
               (res.out = "ok") = (evs[Len(evs)].k = "ret")
-Bounded == Len(fns) + Len(todo) <= MaxFn /\ \A i \in 1..Len(fns) : fns[i].d <= MaxDepth
+Bounded == phase = "build" => Len(fns) + Len(todo) <= MaxFn /\ \A i \in 1..Len(fns) : fns[i].d <= MaxDepth
+
+\* every complete program obeys the construction rules (also the ones read from IOEnv.PROGS)
+WellFormed == (phase = "build" /\ todo = <<>> /\ fns # <<>>) =>
+  /\ Len(fns) <= MaxFn
+  /\ fns[1].k \in RootKinds
+  /\ \A i \in 1..Len(fns) :
+       LET b == BodyOf(fns, i)  u == Uses(b)  ch == fns[i].ch IN
+       /\ fns[i].sk \in AllSkel /\ \A h \in 1..3 : fns[i].at[h] \in AllAtoms
+       /\ Valid(b, fns[i].k = "gen")
+       /\ (i > 1 /\ fns[i].k # "gen") => fns[i].k \in CalleeKinds
+       /\ (ch[1] # 0) = ("d1" \in u) /\ (ch[2] # 0) = ("d2" \in u) /\ (ch[3] # 0) = ("g" \in u)
+       /\ \A c \in 1..3 : ch[c] # 0 => /\ ch[c] > i /\ ch[c] <= Len(fns)
+                                        /\ (fns[ch[c]].k = "gen") = (c = 3)
+  /\ \A j \in 2..Len(fns) : Cardinality({<<i, c>> \in (1..Len(fns)) \X (1..3) : fns[i].ch[c] = j}) = 1
 
 EvOut(e) == <<e.k, e.f, e.a, e.l, e.s>>
 Publish == (Dump /\ phase = "done") =>
